@@ -269,6 +269,17 @@ def check_init(fn: ast.FunctionDef):
             seen[node.targets[0].attr] = seen.get(node.targets[0].attr, 0) + 1
     if set(seen) != set(BLOCK_SHAPES):
         raise Unsupported("S_matrix.__init__ does not allocate every block")
+    # which branch allocates what: 2-D blocks exactly when no batch size is given (`ns is None`; a batch of size 0 is a batch),
+    # stacks of ns matrices otherwise
+    branch = [n for n in fn.body if isinstance(n, ast.If)]
+    if len(branch) != 1 or ast.unparse(branch[0].test) != "ns is None":
+        raise Unsupported("S_matrix.__init__: the choice between unbatched and batched blocks must be `if ns is None`")
+    for part, rank in ((branch[0].body, 2), (branch[0].orelse, 3)):
+        allocs = [n for n in part if isinstance(n, ast.Assign) and ast.unparse(n.targets[0])[5:] in BLOCK_SHAPES]
+        if len(allocs) != len(BLOCK_SHAPES) or any(len(n.value.args[0].elts) != rank for n in allocs):
+            raise Unsupported(f"S_matrix.__init__: the {'un' if rank == 2 else ''}batched branch must allocate every block with rank {rank}")
+        if rank == 3 and any(ast.unparse(n.value.args[0].elts[0]) != "ns" for n in allocs):
+            raise Unsupported("S_matrix.__init__: the leading axis of a batched block must be ns")
     for name in ("N", "M"):
         if not any(isinstance(n, ast.Assign) and ast.unparse(n.targets[0]) == f"self.{name}" and ast.unparse(n.value) == name
                    for n in fn.body):
